@@ -1133,3 +1133,19 @@ func PlainAccess(what string, site string) {
 	}
 	s.res.Lockset = append(s.res.Lockset, msg)
 }
+
+// Report records a white-box protocol violation observed during the execution ("<key> | <what>"); it
+// ends up in Result.Lockset next to the lock-discipline findings.
+func Report(key, what string) {
+	s := cur()
+	if s == nil {
+		return
+	}
+	msg := key + " | " + what
+	for _, x := range s.res.Lockset {
+		if x == msg {
+			return
+		}
+	}
+	s.res.Lockset = append(s.res.Lockset, msg)
+}
